@@ -6,6 +6,7 @@ import (
 	"fmt"
 	"log"
 	"math/rand"
+	"sync"
 
 	"github.com/lugu/qiloop/meta/signature"
 	"github.com/lugu/qiloop/type/conversion"
@@ -100,6 +101,11 @@ func (p proxy) SubscribeID(action uint32) (func(), chan []byte, error) {
 		return nil, nil, err
 
 	}
+	// the count of the local subscribers and the remote registration
+	// change together: a second subscriber must not return before
+	// the registration of the first one has completed.
+	lock := subscriptionLock(p.client)
+	lock.Lock()
 	subscriptions := p.client.State(fmt.Sprintf("%d.%d.%d", p.service, p.object, action), 1)
 	if subscriptions == 1 {
 		handler := rand.Int()
@@ -107,10 +113,16 @@ func (p proxy) SubscribeID(action uint32) (func(), chan []byte, error) {
 		obj := proxyObject{p}
 		_, err := obj.RegisterEvent(p.object, action, uint64(handler))
 		if err != nil {
+			p.client.State(fmt.Sprintf("%d.%d.%d.handler", p.service, p.object, action), -handler)
+			p.client.State(fmt.Sprintf("%d.%d.%d", p.service, p.object, action), -1)
+			lock.Unlock()
+			cancel()
 			return nil, nil, err
 		}
 	}
+	lock.Unlock()
 	return func() {
+		lock.Lock()
 		subscriptions := p.client.State(fmt.Sprintf("%d.%d.%d", p.service, p.object, action), -1)
 		if subscriptions == 0 {
 			handler := p.client.State(fmt.Sprintf("%d.%d.%d.handler", p.service, p.object, action), 0)
@@ -121,8 +133,22 @@ func (p proxy) SubscribeID(action uint32) (func(), chan []byte, error) {
 				log.Printf("failed to unregister event action %d: %s", action, err)
 			}
 		}
+		lock.Unlock()
 		cancel()
 	}, bytes, nil
+}
+
+// subscriptionMutex is used for the clients which do not provide
+// their own lock.
+var subscriptionMutex sync.Mutex
+
+// subscriptionLock returns the lock which serializes the subscriptions
+// made through the client.
+func subscriptionLock(c Client) *sync.Mutex {
+	if l, ok := c.(interface{ subscriptionLock() *sync.Mutex }); ok {
+		return l.subscriptionLock()
+	}
+	return &subscriptionMutex
 }
 
 // ServiceID returns the service identifier.
